@@ -12,7 +12,8 @@ RULE = ("Expression ASTs of the stratified grammar (or > and > not > cmp > add >
         "with the library; value and bool/number class must agree for both renderings. Ill-formed: exactly one edit of "
         "a well-formed token list in the three classes the property names (drop/insert one parenthesis; drop/add one "
         "function argument with its comma; delete one operand of a binary operator where the rest cannot be re-read as "
-        "a unary sign) must raise. Non-trivial: >=3 operators from >=2 steps, or a sign adjacent to **, or a chained "
+        "a unary sign; and - the same kind of single edit - one operator deleted between parenthesised operands: '(1)(2)', "
+        "'2(3)') must raise. Strategy long_flat: 65-200 operands on one nesting level. Non-trivial: >=3 operators from >=2 steps, or a sign adjacent to **, or a chained "
         "comparison, or function nesting >=2, or an ill-formed variant. Distinct = distinct rendered string(s).")
 ASSUMPTIONS = [
     "default AtomBase atoms; literals are digits, decimals and unsigned exponents (1e3)",
@@ -51,6 +52,19 @@ def _operand_positions(t, path=()):
         yield from _operand_positions(t[2], path + (2,))
 
 
+def _juxtapositions(toks):
+    """indices of binary operators whose removal leaves two operands side by side with a parenthesis between them
+    ('(1)(2)', '2(3)', 'sin(1)4'): neither a longer number nor a sign, so the string is ill-formed"""
+    out = []
+    for i, (x, g) in enumerate(toks):
+        if g != "bin" or i == 0 or i + 1 >= len(toks):
+            continue
+        left, right = toks[i - 1], toks[i + 1]
+        if left[1] in ("num", "close") and right[1] in ("num", "open", "fn") and (left[1] == "close" or right[1] != "num"):
+            out.append(i)
+    return out
+
+
 @st.composite
 def illformed_case(draw, depth):
     t = draw(E.expr(depth=depth, top=draw(st.sampled_from(["or", "add", "add", "cmp"]))))
@@ -66,6 +80,8 @@ def illformed_case(draw, depth):
         modes += ["arg_drop"] * 3
     if any(tag == "bin" for _x, tag in toks):
         modes += ["operand"] * 5
+    if _juxtapositions(toks):
+        modes += ["drop_operator"] * 3
     mode = draw(st.sampled_from(modes))
     pick = draw(st.integers(0, 10 ** 6))
     loose = draw(st.booleans())
@@ -73,9 +89,22 @@ def illformed_case(draw, depth):
             "extra": draw(st.sampled_from(E.NUMBERS))}
 
 
+@st.composite
+def long_flat_case(draw):
+    """65-200 operands on ONE nesting level (the grammar puts no bound on the length of an expression)"""
+    n = draw(st.integers(65, 200))
+    first = ["num", draw(st.sampled_from(["1", "2", "3", "0.5"]))]
+    rest = []
+    for _ in range(n - 1):
+        op = draw(st.sampled_from(["+", "+", "-", "*"]))
+        rest.append([op, ["num", draw(st.sampled_from(["1", "2", "3", "0.5", "1.5"]))]])
+    return {"kind": "flat", "first": first, "rest": rest, "blanks": draw(st.booleans())}
+
+
 def strategies(tier):
     dq, dt = 2, 4
     return {
+        "long_flat": (long_flat_case(), 80, 1500, 10),
         "valid": (valid_case(dq if tier == "quick" else dt), 3000, 60000),
         "illformed": (illformed_case(dq if tier == "quick" else dt), 2000, 40000),
     }
@@ -172,6 +201,12 @@ def _mutate(case):
         i = pick % (len(toks) + 1)
         new = ("(", "open") if mode == "insert_open" else (")", "close")
         return toks[:i] + [new] + toks[i:], f"{mode} at token {i}"
+    if mode == "drop_operator":
+        idx = _juxtapositions(toks)
+        if not idx:
+            return None, "no operator between parenthesised operands"
+        i = idx[pick % len(idx)]
+        return toks[:i] + toks[i + 1:], f"operator {toks[i][0]} deleted between {toks[i - 1][0]} and {toks[i + 1][0]}"
     if mode in ("drop_open", "drop_close"):
         tag = "open" if mode == "drop_open" else "close"
         idx = [i for i, (_x, g) in enumerate(toks) if g == tag]
@@ -253,7 +288,36 @@ def check_ill(case, v):
                                         f"original {E.render(E.tokens(case['tree']))!r})")
 
 
+def check_flat(case, v):
+    sep = " " if case["blanks"] else ""
+    text = case["first"][1] + "".join(f"{sep}{op}{sep}{x[1]}" for op, x in case["rest"])
+    # reference: products first (left to right), then sums and differences (left to right)
+    terms, ops = [float(case["first"][1])], []
+    for op, x in case["rest"]:
+        val = float(x[1])
+        if op == "*":
+            terms[-1] *= val
+        else:
+            ops.append(op)
+            terms.append(val)
+    acc = terms[0]
+    for op, t in zip(ops, terms[1:]):
+        acc = acc + t if op == "+" else acc - t
+    if not np.isfinite(acc):
+        return v.discard("domain-error")
+    try:
+        r = _solve(text)
+    except Exception as e:
+        return v.fail("valid-raised", f"solve() of a well-formed expression with {len(case['rest']) + 1} operands on one "
+                                      f"level raised {e!r}: {text[:120]}...")
+    got = getattr(r, "value", r)
+    if not close(float(got), acc, 1e-9, 1e-9):
+        return v.fail("value", f"{len(case['rest']) + 1} operands on one level: got {got!r}, expected {acc!r}: {text[:120]}...")
+    v.nt(True)
+    v.label("long_flat")
+
+
 def check(case):
     v = Verdict()
-    {"valid": check_valid, "ill": check_ill}[case["kind"]](case, v)
+    {"valid": check_valid, "ill": check_ill, "flat": check_flat}[case["kind"]](case, v)
     return v
